@@ -2,7 +2,7 @@
 
 import numpy as np
 
-from ._base import BuilderSystem, run_configs, replay_history, with_bystander
+from ._base import BuilderSystem, run_configs, replay_history, with_bystander, replayed
 from ..harness import pt
 from ..common import rf, import_gscrib
 
@@ -252,7 +252,7 @@ def systems(tier):
             ("builder-relative-after-moves", after(C01System("builder-relative-after-moves", 5, exact, tracers=False),
                                                    [["move", [], {"x": 1.5, "y": -2, "z": 0.5}], ["rapid", [], {"x": -2}], ["set_distance_mode", ["relative"]]]), 3, None),
             ("builder-with-bystander", with_bystander(C01System("builder-with-bystander", 5, exact)), 2, None),
-            ("builder-precision-changed-at-run-time", precision_changes(C01System("builder-precision-changed-at-run-time", 2, (0, 12.3456, -2.71828), tracers=False), (5, 2, 0)), 4, None),
+            ("builder-precision-changed-at-run-time", replayed(precision_changes(C01System("builder-precision-changed-at-run-time", 2, (0, 12.3456, -2.71828), tracers=False), (5, 2, 0))), 4, None),
         ]
     return [
         ("builder-dp0-integers", C01System("builder-dp0-integers", 0, (0, 120, -10), tracers=True), 3, None),
